@@ -148,6 +148,7 @@ fn main() {
         "c09" => c02::run_c09(&mut ctx, replay_lines.as_deref()),
         "c03" => c03::run(&mut ctx, replay_lines.as_deref()),
         "c06" => c06::run_c06(&mut ctx, replay_lines.as_deref()),
+        "c07" => c06::run_c07(&mut ctx, replay_lines.as_deref()),
         "c08" => c08::run(&mut ctx, replay_lines.as_deref()),
         "c11" => c11::run(&mut ctx, replay_lines.as_deref()),
         "c15" => c15::run(&mut ctx, replay_lines.as_deref()),
